@@ -4,6 +4,7 @@ import Txtpp.Model.Tag
 import Txtpp.Model.Project
 import Txtpp.Model.Safe
 import Txtpp.Model.ProjSafe
+import Txtpp.Model.ProjectTrace
 import Txtpp.Model.Cli
 import Txtpp.Model.Shell
 import Txtpp.Model.CoordSim
@@ -278,6 +279,20 @@ def handle (line : String) : String :=
       let deps := srcs.any (fun p => match (runPass cfg fs p true).1 with | .hasDeps _ => true | _ => false)
       s!"v={showVerdict v1} deps={deps} needed={showSt stN} nconcl={nconcl} twice={if v1 == Verdict.ok then showSt stT else "n/a"} tconcl={tconcl} verify={if vV == Verdict.ok then (if stV.isSome && stN == some [] then "clean" else if stV.isSome then "needed-only" else "unsafe") else "n/a"} vconcl={vconcl}"
     | _, _, _, _ => "bad-field"
+  | ["trace", mode, tr, rec, base, inputs, tree, cmds] =>
+    -- the deliveries of the reference run, in order: (file, first / final pass); the failing delivery is not listed
+    match modeOf mode, unhex base, (splitList inputs).mapM unhex, parseTree (splitList tree), parseCmds (splitList cmds) with
+    | some mode, some base, some inputs, some fs, some cmds =>
+      let cfg : Cfg := { mode := mode, trailing := tr == "t", recursive := rec == "t", baseAbs := base, cmds := cmds }
+      let (v, _) := runProject cfg fs inputs
+      if offVocabulary cfg fs then "vocab -" else
+      match runProjectT cfg fs inputs with
+      | none => s!"{showVerdict v} -"
+      | some (_, s, hist) =>
+        let items := hist.map (fun (tr : Coord.Task × Coord.Res) => match tr.1 with
+          | .pp f first => hex (joinPath (s.names.getD f [])) ++ ":" ++ (if first then "1" else "2"))
+        s!"{showVerdict v} {if items.isEmpty then "-" else ",".intercalate items}"
+    | _, _, _, _, _ => "bad-field"
   | ["coordscan", files, dirs, world, dirworld, choices] =>
     match parseNats files, parseNats dirs, parseWorld (splitList world), parseDirWorld (splitList dirworld), parseNats choices with
     | some files, some dirs, some wl, some dl, some choices =>
